@@ -6,6 +6,7 @@ CONSTANTS
   PDir = FALSE
   PLoops = FALSE
   PKF <- PathKF
+  PAcc = FALSE
   PSparse = TRUE
 INVARIANT InvPaths
 INVARIANT InvValid
